@@ -91,6 +91,11 @@ Definition results_of (h : list (nat * res)) (i : nat) : list Z :=
   flat_map (fun e => if Nat.eqb (fst e) i then enc_res (snd e) else []) h.
 Definition enc_slot (x : option Z * Z) : list Z := [match fst x with Some v => v | None => 0 end; snd x].
 
+(* after the given schedule: round robin until everybody is done (entries of finished threads are skipped) *)
+Definition completion (n : nat) (progs : list (list Z)) : list Z :=
+  let total := fold_left (fun a p => a + length p)%nat progs O in
+  concat (repeat (map Z.of_nat (seq 0 n)) (40 * total + 40)).
+
 Definition run_case (args : list Z) : list Z :=
   match args with
   | k :: bh :: bl :: fill :: nt :: r =>
@@ -98,7 +103,7 @@ Definition run_case (args : list Z) : list Z :=
       let (progs, r1) := get_lists n r in
       let (sched, _) := get_list r1 in
       let c0 := seq_state k (bh * 2 ^ 32 + bl) fill n in
-      match go c0 progs sched [] with
+      match go c0 progs (sched ++ completion n progs) [] with
       | None => [PANIC]
       | Some (c, acc) =>
           rev' acc ++ [-1] ++ flat_map (fun i => put_list (results_of (hist c) i)) (seq 0 n)
